@@ -96,6 +96,27 @@ def r14_8_memo_inventory(chk):
                     f"{m.func.short} keeps a computed result across calls ({m.kind} cache '{m.detail}'): results of "
                     f"earlier calls / writes can leak into later output unless every input is part of the key and "
                     f"every writer invalidates", m.where, detail_ok=ALLOWED_MEMOS.get(m.key, ""))
+    # the same idiom in one expression (`self._c = self._c or compute()`, `getattr(self, '_c', None) or ...`), found on
+    # the value-flow summaries: a store into a field of the receiver whose value reads that very field as one of its
+    # alternatives, the other being computed
+    from ..terms import SELF, subterms, contains
+    known_manual = {m.func for m in memos}
+    for f in ix.functions.values():
+        if not isinstance(f.node, ast.FunctionDef) or f.name in ("__init__", "__new__") or f.kind == "setter" \
+                or f in known_manual:
+            continue
+        for e in chk.terms.summary(f).effects:
+            if e.kind != "store_attr" or e.aug is not None or e.base not in (SELF, ("param", "cls")):
+                continue
+            own = ("attr", e.base, e.key)
+            v = e.value
+            reuse = (v[0] == "or" and own in v[1]) or (v[0] == "ite" and own in (v[2], v[3]))
+            per_write = f.cls is not None and any(c.name in PER_WRITE_CLASSES for c in f.cls.mro())
+            if reuse and not per_write and contains(v, lambda x: x[0] == "call"):
+                key = f"manual:{f.short}:{e.key}"
+                chk.require(key in ALLOWED_MEMOS, "R14.8", f"memo:{key}",
+                            f"{f.short} keeps a computed result across calls (`{e.key}` is reused when already set): "
+                            f"results of earlier calls / writes can leak into later output", e.where)
     # positive control for the zero-count direction is in sa/selftest (C14-b*)
     # R14.1: ushort is only called with the bit sum
     us = ix.find_function("ushort")
@@ -154,19 +175,23 @@ def r14_2_obname(chk):
     sa = item.lookup("__setattr__")
     inval = set()
     if sa is not None:
-        chk.consult(sa)
-        for n in walk_local(sa.node):
-            if isinstance(n, ast.If):
-                pops = [x for b in n.body for x in ast.walk(b) if isinstance(x, ast.Call)
-                        and isinstance(x.func, ast.Attribute) and x.func.attr == "pop" and x.args
-                        and try_const(x.args[0]) == "obname"]
-                dels = [x for b in n.body for x in ast.walk(b) if isinstance(x, ast.Delete) and "obname" in norm(x)]
-                if pops or dels:
-                    for c in ast.walk(n.test):
-                        if isinstance(c, (ast.Tuple, ast.List, ast.Set)):
-                            inval |= {try_const(e) for e in c.elts}
-                        if isinstance(c, ast.Compare) and isinstance(c.ops[0], ast.Eq):
-                            inval.add(try_const(c.comparators[0]))
+        # value-flow summary of __setattr__: the effect that drops the memo (`__dict__.pop('obname', ...)` / del) and
+        # the keys named by its path condition (module-level constants are resolved to their values)
+        from ..terms import subterms, is_call
+        ss = chk.summary(sa)
+        key = ("param", sa.param_names[1])
+        for e in ss.effects:
+            drops = (e.kind == "call" and is_call(e.value, "pop") and e.value[2] and e.value[2][0] == ("const", "obname")) \
+                or (e.kind == "del" and any(x == ("const", "obname") or (x[0] == "attr" and x[2] == "obname")
+                                            for x in subterms(e.value)))
+            if not drops:
+                continue
+            for l in e.pc:
+                for x in subterms(l):
+                    if x[0] == "cmp" and x[1] == "in" and x[2] == key and x[3][0] in ("tuple", "list", "set"):
+                        inval |= {y[1] for y in x[3][1] if y[0] == "const"}
+                    if x[0] == "cmp" and x[1] == "==" and x[2] == key and x[3][0] == "const":
+                        inval.add(x[3][1])
     missing = sorted(f for f in fields if f not in inval)
     chk.require(not missing, "R14.2", "obname-invalidated-by-every-writer",
                 f"the memoised OBNAME reads {sorted(fields)} but assignments to {missing} do not invalidate it: a renamed "
